@@ -1643,6 +1643,7 @@ func TestVerif_C04(t *testing.T) {
 		})
 		w.Up.Reset()
 	}
+	c04ProviderTypes(run, w, r) // OIDC-derived provider types (keycloak-oidc, gitlab, adfs, azure, entra-id): c04_providers.go
 	// the run proves something only if valid tokens produced sessions on every path
 	for _, p := range []string{"callback", "refresh", "bearer"} {
 		if run.Counter("sessions_from_valid_tokens_"+p) < 20 {
